@@ -334,7 +334,7 @@ func runSession(c Case) Result {
 	// capability negotiation): is sasl acknowledged, and has anything the client supports
 	// been advertised since the last ACK (so that a final LS/NEW must be answered by REQ).
 	saslOn := false
-	pendingReq := false
+	pending := map[string]bool{} // requestable names advertised and neither acknowledged, refused nor withdrawn yet
 	capMarks := map[string]bool{}
 	for i, st := range steps {
 		if returned || !ok {
@@ -389,18 +389,20 @@ func runSession(c Case) Result {
 					if saslCapName(t) == "sasl" {
 						saslOn = false
 					}
+					delete(pending, saslCapName(t))
 				}
 			case len(f) >= 3 && sub == "NAK":
+				pending = map[string]bool{}
 				excused = true
 				capMarks["nak"] = true
 			case len(f) >= 4 && (sub == "LS" || sub == "NEW"):
 				for _, t := range toks {
 					if n := saslCapName(t); builtinCaps[n] || (n == "sasl" && mech != nil) {
-						pendingReq = true
+						pending[n] = true
 					}
 				}
 				if len(f) == 4 {
-					excused = !pendingReq
+					excused = len(pending) == 0
 					if authStarted {
 						capMarks[strings.ToLower(sub)+map[bool]string{true: "-empty", false: "-req"}[excused]] = true
 					}
@@ -413,7 +415,7 @@ func runSession(c Case) Result {
 						saslOn = false
 					}
 				}
-				pendingReq = false
+				pending = map[string]bool{}
 				excused = !saslOn || mech == nil
 				if authStarted {
 					capMarks["ack"+map[bool]string{true: "-nosasl", false: ""}[excused]] = true
